@@ -382,6 +382,9 @@ Apply(fn, kind, xs, par) ==
          \* .* / *. : a list with n copies of something
          [] fn \in {"replicate", "replicate_r"} ->
                 IF n < 0 \/ kind = "stream" THEN RUnspec ELSE ROk(L([j \in 1..n |-> Whole(kind, xs)]))
+         \* seq ** n / n ** seq : the ELEMENTS of the sequence n times over, always as a list (nothing for n <= 0)
+         [] fn \in {"repeat", "repeat_r"} ->
+                ROk(L(IF n <= 0 \/ xs = <<>> THEN <<>> ELSE [j \in 1..(n * Len(xs)) |-> xs[((j - 1) % Len(xs)) + 1]]))
          [] fn = "product2" -> ROk(L(LProduct2(xs, o)))
          \* (the 0-th power of the EMPTY sequence: the documentation is silent, the implementation yields nothing
          \*  where the empty product would be one empty tuple - left open)
